@@ -115,6 +115,15 @@ theorem ref_op_eq_strlen (m : Nat) (a : Val) (c : Ctr) (hw : a.wf = true) :
 theorem ref_op_eq_gr (m : Nat) (a : Val) (c : Ctr) (hw : a.wf = true) (hp : Proper a) :
     OpAgree m (Interp.opGr {} 0 m a c) (Ref.opGr a.erase) := opGr_agree m a c hw hp
 
+theorem ref_op_eq_logand (m : Nat) (a : Val) (c : Ctr) (hw : a.wf = true) (hp : Proper a) :
+    OpAgree m (Interp.opLogand 0 m a c) (Ref.opLogand a.erase) := opLogand_agree m a c hw hp
+
+theorem ref_op_eq_logior (m : Nat) (a : Val) (c : Ctr) (hw : a.wf = true) (hp : Proper a) :
+    OpAgree m (Interp.opLogior 0 m a c) (Ref.opLogior a.erase) := opLogior_agree m a c hw hp
+
+theorem ref_op_eq_logxor (m : Nat) (a : Val) (c : Ctr) (hw : a.wf = true) (hp : Proper a) :
+    OpAgree m (Interp.opLogxor 0 m a c) (Ref.opLogxor a.erase) := opLogxor_agree m a c hw hp
+
 theorem ref_op_eq_lognot (m : Nat) (a : Val) (c : Ctr) (hw : a.wf = true) (hp : Proper a) :
     OpAgree m (Interp.opLognot 0 m a c) (Ref.opLognot a.erase) := opLognot_agree m a c hw hp
 
@@ -229,13 +238,13 @@ theorem C01_main_partial (lenient : Bool) (prog env : Tree) (h1 : OneStep prog) 
 runs with all consensus adapters and operand lists read like the Python (`coreAd`); its *domain* is
 restricted by `Adapter.coreFragment` (a run that evaluates a `((X) …)` form or applies opcode 36 is
 outside) and by `Adapter.restrictOps unprovedOp` (so is a run that applies an operator whose
-`ref_op_eq_*` theorem is not proved yet: `logand`, `logior`, `logxor`, any operator the
+`ref_op_eq_*` theorem is not proved yet: any operator the
 reference treats as unknown — and the BLS/newer operators, which are outside C01 anyway).
 Whenever both machines terminate they succeed with the same cost and the same tree, or both fail —
 unless the reference left that domain or hit the adapted stack limit (`BadR`), or the model hit an
 allocator or stack limit or an operator it does not implement (`BadM`).  In particular the theorem is
 unconditional on every program whose run only applies `q a i c f r l x = >s sha256 substr strlen concat + - *
-/ divmod > ash lsh lognot not any all` and environment paths.
+/ divmod > ash lsh logand logior logxor lognot not any all` and environment paths.
 
 Proof: a simulation between the two op-stack machines (`Lemmas/RefSim.lean`): both are described by
 the same continuation (a list of call frames) in one of two positions; "value produced"
@@ -244,7 +253,7 @@ paths by `path_eq`, quotations, operator-call entry with the nil-terminator chec
 (`(a P E)`: `apply; eval` against `apply_op`'s immediate `eval_pair`; ordinary operators: the two
 dispatch tables against each other, `dispatch_agree`, where the `ref_op_eq_*` theorems plug in).
 
-What is missing for the full `StatementFor true`: the four operator theorems named above (then
+What is missing for the full `StatementFor true`: the unknown-operator rule (then
 `unprovedOp` shrinks to the operators outside C01), the `((X) …)` form (needs "operators do not look
 at the terminator of their argument list" for the lenient reading) and softfork guards. -/
 theorem C01_main_core_partial (prog env : Tree) (budget fuel fuel' : Nat)
